@@ -1,6 +1,7 @@
 // UNIT handler_ops: Handler::configure_read_options, the stamping loop of Handler::process_frame, the
 // dispatch loop of Handler::serve -- generated, do not edit. `.await` stripped: sequential code only.
 #![feature(allocator_api)]
+#![feature(pattern)]
 #![allow(unused_imports, dead_code, unused_variables, unused_mut, non_snake_case)]
 use vstd::prelude::*;
 use std::time::Duration;
@@ -29,6 +30,7 @@ pub broadcast proof fn axiom_display_id(x: &Scru128Id, res: String)
     ensures #[trigger] vstd::string::to_string_from_display_ensures::<Scru128Id>(x, res) ==> res@ == id_str(id_u128(*x)) { admit(); }
 pub broadcast proof fn axiom_display_str(x: &str, res: String)
     ensures #[trigger] vstd::string::to_string_from_display_ensures::<str>(x, res) ==> res@ == x@ { admit(); }
+//@@include _prelude_fmt.rs
 
 // ---- std::time model (ASSUMED; see unit expiry) ----
 pub uninterp spec fn dur_ns(d: Duration) -> nat;
@@ -44,6 +46,20 @@ pub mod serde_json {
     pub uninterp spec fn obj(v: Value) -> vstd::map::Map<Seq<char>, Value>;
     pub uninterp spec fn mapv(m: Map) -> vstd::map::Map<Seq<char>, Value>;
     pub uninterp spec fn strv(v: Value) -> Option<Seq<char>>;
+    // json!({ "k": v, .. }) with a flat object (see json_desugar in DESIGN §2): an object with exactly those members
+    pub uninterp spec fn str_value(s: Seq<char>) -> Value;
+    pub broadcast proof fn axiom_str_value(s: Seq<char>) ensures strv(#[trigger] str_value(s)) == Some(s), !is_object(str_value(s)) { admit(); }
+    pub trait VxToJson: Sized { spec fn vx_value(self) -> Value; }
+    impl VxToJson for std::string::String { open spec fn vx_value(self) -> Value { str_value(self@) } }
+    pub struct JsonObjBuilder { pub ghost m: vstd::map::Map<Seq<char>, Value> }
+    #[verifier::external_body]
+    pub fn vx_obj() -> (b: JsonObjBuilder) ensures b.m == vstd::map::Map::<Seq<char>, Value>::empty() { unimplemented!() }
+    impl JsonObjBuilder {
+        #[verifier::external_body]
+        pub fn with<T: VxToJson>(self, k: &str, v: T) -> (b: JsonObjBuilder) ensures b.m == self.m.insert(k@, v.vx_value()) { unimplemented!() }
+        #[verifier::external_body]
+        pub fn vx_done(self) -> (v: Value) ensures is_object(v), obj(v) == self.m { unimplemented!() }
+    }
     impl Value {
         #[verifier::external_body]
         pub fn Object(m: Map) -> (r: Value) ensures is_object(r), obj(r) == mapv(m) { unimplemented!() }
@@ -155,7 +171,10 @@ impl ReadOptionsBuilder {
 
 // ---- ghost log of what a handler appends ----
 pub struct Hx { pub ghost appended: Seq<Frame>, pub ghost processed: Seq<Frame>, pub ghost incoming: Seq<Frame>,
-                pub ghost buffered: Seq<Frame>, pub ghost evals: nat }
+                pub ghost buffered: Seq<Frame>, pub ghost evals: nat,
+                // bookkeeping for the dispatch loop: how many of `appended` were appended inside process_frame calls, and how
+                // many process_frame calls failed
+                pub ghost proc_out: nat, pub ghost failures: nat }
 #[verifier::external_body] pub struct Store { _p: () }
 #[derive(Debug)] pub struct AppendError;
 impl Store {
@@ -164,8 +183,12 @@ impl Store {
     pub fn append(&self, Tracked(hx): Tracked<&mut Hx>, f: Frame) -> (r: Result<Frame, AppendError>)
         ensures final(hx).appended == old(hx).appended.push(f), final(hx).processed == old(hx).processed, final(hx).incoming == old(hx).incoming,
             final(hx).buffered == old(hx).buffered, final(hx).evals == old(hx).evals,
+            final(hx).proc_out == old(hx).proc_out, final(hx).failures == old(hx).failures,
+            // the frame handed back is the stored one: as given, under its new id (proved of the real append in unit store_ops)
+            r matches Ok(fr) ==> fr.topic == f.topic && fr.context_id == f.context_id && fr.hash == f.hash && fr.meta == f.meta,
     { unimplemented!() }
 }
+impl From<AppendError> for Error { #[verifier::external_body] fn from(e: AppendError) -> (r: Error) { unimplemented!() } }
 //@@ default_after_all: store.append( ==> Tracked(hx),
 //@@ default_after_all: .process_frame( ==> Tracked(hx),
 //@@ default_after_all: .recv( ==> Tracked(hx),
@@ -184,6 +207,7 @@ impl FrameReceiver {
     #[verifier::external_body]
     pub fn recv(&mut self, Tracked(hx): Tracked<&mut Hx>) -> (r: Option<Frame>)
         ensures final(hx).appended == old(hx).appended, final(hx).processed == old(hx).processed,
+            final(hx).proc_out == old(hx).proc_out, final(hx).failures == old(hx).failures,
             r matches Some(f) ==> old(hx).incoming.len() > 0 && f == old(hx).incoming[0] && final(hx).incoming == old(hx).incoming.drop_first(),
             r is None ==> final(hx).incoming == old(hx).incoming,
     { unimplemented!() }
@@ -210,9 +234,23 @@ pub struct Span { pub _p: () }
 pub enum Value { Nothing { internal_span: Span }, Other { internal_span: Span } }     // nu_protocol::Value: only `Nothing` matters here
 pub assume_specification<T, E> [Result::<T, E>::unwrap_or] (r: Result<T, E>, d: T) -> (v: T)
     ensures v == (match r { Ok(x) => x, Err(_) => d });
-pub mod nu_protocol { pub use super::Span; pub use super::Value; }
+#[verifier::external_body] pub struct EngineState { _p: () }
+#[verifier::external_body] pub struct ShellError { _p: () }
+pub mod nu_protocol { pub use super::Span; pub use super::Value;
+    pub mod engine { #[verifier::external_body] pub struct StateWorkingSet { _p: () }
+        impl StateWorkingSet { #[verifier::external_body] pub fn new(s: &super::super::EngineState) -> (r: StateWorkingSet) { unimplemented!() } }
+        #[verifier::external_body] pub struct Closure { _p: () } }
+    #[verifier::external_body] pub fn format_shell_error(ws: &engine::StateWorkingSet, e: &Box<super::ShellError>) -> (r: String) { unimplemented!() }
+}
 impl Span { #[verifier::external_body] pub fn unknown() -> (r: Span) { unimplemented!() } }
 impl Value { #[verifier::external_body] pub fn nothing(s: Span) -> (r: Value) ensures r is Nothing { unimplemented!() } }
+// nu's own predicates on a Value: `is_nothing` is exactly the Nothing variant; `is_empty` is ALSO true for "", [], {} and empty binary
+pub uninterp spec fn value_is_empty(v: Value) -> bool;
+pub broadcast proof fn axiom_nothing_is_empty(v: Value) ensures v is Nothing ==> #[trigger] value_is_empty(v) { admit(); }
+impl Value {
+    #[verifier::external_body] pub fn is_nothing(&self) -> (r: bool) ensures r == (*self is Nothing) { unimplemented!() }
+    #[verifier::external_body] pub fn is_empty(&self) -> (r: bool) ensures r == value_is_empty(*self) { unimplemented!() }
+}
 #[verifier::external_body] pub struct OutGuard { _p: () }
 #[verifier::external_body] pub struct OutLock { _p: () }
 #[verifier::external_body] pub struct DrainIter { _p: () }
@@ -252,20 +290,36 @@ impl ChainIter {
     #[verifier::external_body]
     pub fn collect(self) -> (v: Vec<Frame>) ensures v@ == chain_seq(&self) { unimplemented!() }
 }
+pub uninterp spec fn is_own_append_value(value: Value, handler_id: Scru128Id) -> bool;
+pub uninterp spec fn value_json(value: Value) -> serde_json::Value;
+pub uninterp spec fn json_text(v: serde_json::Value) -> Seq<char>;
+pub uninterp spec fn content_hash(content: Seq<char>) -> Integrity;
+// what the n-th evaluation of the closure (on this trigger) returned and buffered: an oracle, fixed by the run
+pub uninterp spec fn eval_value(n: nat, trigger: Frame) -> Value;
+pub uninterp spec fn eval_buffered(n: nat, trigger: Frame) -> Seq<Frame>;
 #[verifier::external_body]
-pub fn is_value_an_append_frame_from_handler(value: &Value, handler_id: &Scru128Id) -> (r: bool) { unimplemented!() }
+pub fn is_value_an_append_frame_from_handler(value: &Value, handler_id: &Scru128Id) -> (r: bool)
+    ensures r == is_own_append_value(*value, *handler_id) { unimplemented!() }
 #[verifier::external_body]
-pub fn value_to_json(value: &Value) -> (r: serde_json::Value) { unimplemented!() }
+pub fn value_to_json(value: &Value) -> (r: serde_json::Value) ensures r == value_json(*value) { unimplemented!() }
+pub broadcast proof fn axiom_display_json(x: &serde_json::Value, res: String)
+    ensures #[trigger] vstd::string::to_string_from_display_ensures::<serde_json::Value>(x, res) ==> res@ == json_text(*x) { admit(); }
+// Option<String>::as_deref
+#[verifier::external_body]
+pub fn opt_string_as_str(o: &Option<String>) -> (r: Option<&str>)
+    ensures match r { Some(x) => *o is Some && x@ == o.unwrap()@, None => *o is None } { unimplemented!() }
 impl std::fmt::Display for serde_json::Value { #[verifier::external_body] fn fmt(&self, f: &mut std::fmt::Formatter) -> std::fmt::Result { unimplemented!() } }
 pub proof fn axiom_fmt_req2() ensures vstd::std_specs::fmt::fmt_req_all::<serde_json::Value>() { admit(); }
 impl Store {
     // cas_insert: content stored under the returned hash, or an error (ASSUMED of cacache)
     #[verifier::external_body]
-    pub fn cas_insert(&self, content: &String) -> (r: Result<Integrity, CasError>) { unimplemented!() }
+    pub fn cas_insert(&self, content: &String) -> (r: Result<Integrity, CasError>)
+        ensures r is Ok ==> r.unwrap() == content_hash(content@) { unimplemented!() }
 }
 impl FrameBuilder {
     #[verifier::external_body] pub fn maybe_ttl(self, t: Option<TTL>) -> (b: FrameBuilder) ensures b.f == (Frame { ttl: t, ..self.f }) { unimplemented!() }
     #[verifier::external_body] pub fn maybe_hash(self, h: Option<Integrity>) -> (b: FrameBuilder) ensures b.f == (Frame { hash: h, ..self.f }) { unimplemented!() }
+    #[verifier::external_body] pub fn hash(self, h: Integrity) -> (b: FrameBuilder) ensures b.f == (Frame { hash: Some(h), ..self.f }) { unimplemented!() }
 }
 impl Clone for TTL { #[verifier::external_body] fn clone(&self) -> (r: TTL) ensures r == *self { unimplemented!() } }
 impl Clone for Frame { #[verifier::external_body] fn clone(&self) -> (r: Frame) ensures r == *self { unimplemented!() } }
@@ -279,6 +333,7 @@ impl Handler {
         ensures final(hx).appended == old(hx).appended, final(hx).processed == old(hx).processed, final(hx).incoming == old(hx).incoming,
             final(hx).evals == old(hx).evals + 1,
             forall|i: int| 0 <= i < final(hx).buffered.len() ==> (#[trigger] final(hx).buffered[i]).meta is None || serde_json::is_object(final(hx).buffered[i].meta.unwrap()),
+            r is Ok ==> r.unwrap() == eval_value(old(hx).evals, *frame) && final(hx).buffered == old(hx).buffered + eval_buffered(old(hx).evals, *frame),
     { unimplemented!() }
 }
 //@@ default_after_all: .eval_in_thread( ==> Tracked(hx),
@@ -290,12 +345,16 @@ impl Handler {
 //@@ attr: #[verifier::loop_isolation(false)]
 //@@ strip: async await
 //@@ rewrite: additional_frame.into_iter() ==> opt_into_iter(additional_frame)
+//@@ format_desugar
+//@@ rewrite: ro.suffix.as_deref() ==> opt_string_as_str(&ro.suffix)
+//@@ closure_spec: .and_then( @0 ==> -> (o: Option<&str>) ensures match o { Some(x) => $1.suffix is Some && x@ == $1.suffix.unwrap()@, None => $1.suffix is None }
+//@@ closure_spec: .and_then( @1 ==> -> (o: Option<TTL>) ensures o == $1.ttl
 //@@ after_all: fn process_frame(&mut self, ==> Tracked(hx): Tracked<&mut Hx>,
 //@@ for_name: for mut output_frame in
 //@@ closure_spec: .get_or_insert_with( ==> -> (v: serde_json::Value) ensures serde_json::is_object(v)
 //@@ loop_spec: for mut output_frame in
     invariant
-        hx.processed == old(hx).processed, self.id == old(self).id, self.context_id == old(self).context_id,
+        hx.processed == old(hx).processed, self.id == old(self).id, self.context_id == old(self).context_id, self.topic == old(self).topic,
         hx.evals == old(hx).evals + 1,
         hx.appended.len() == old(hx).appended.len() + it.index@,
         forall|i: int| 0 <= i < old(hx).appended.len() ==> #[trigger] hx.appended[i] == old(hx).appended[i],
@@ -310,7 +369,7 @@ impl Handler {
 //@@ spec
     requires old(hx).buffered.len() == 0,
     ensures
-        final(self).id == old(self).id, final(self).context_id == old(self).context_id,
+        final(self).id == old(self).id, final(self).context_id == old(self).context_id, final(self).topic == old(self).topic,
         // all-or-nothing: if the closure (or storing its return value) fails, NONE of the frames of this invocation appear (C15)
         r is Err ==> final(hx).appended == old(hx).appended, //# handler.process_frame.nothing_on_failure
         // on success: the buffered `.append`s in call order, then (if any) the return-value frame, each exactly once,
@@ -319,8 +378,23 @@ impl Handler {
         r is Ok ==> exists|outs: Seq<Frame>| pf_outputs(outs, old(self), frame) && final(hx).appended.len() == old(hx).appended.len() + outs.len()
             && (forall|i: int| 0 <= i < old(hx).appended.len() ==> #[trigger] final(hx).appended[i] == old(hx).appended[i])
             && (forall|i: int| 0 <= i < outs.len() ==> stamped(#[trigger] final(hx).appended[old(hx).appended.len() + i], outs[i], old(self), frame)), //# handler.process_frame.outputs_stamped_in_order
+        // exactly: every frame the script buffered, in call order, then - unless the closure returned nothing (or one of its own
+        // append records) - ONE frame on <name><suffix> with the configured TTL and the hash of the JSON text of the value
+        r is Ok ==> ({
+            let b = eval_buffered(old(hx).evals, *frame);
+            let n0 = old(hx).appended.len();
+            &&& final(hx).appended.len() == n0 + b.len() + (if emits_return(eval_value(old(hx).evals, *frame), old(self).id) { 1int } else { 0int })
+            &&& forall|i: int| 0 <= i < b.len() ==> stamped(#[trigger] final(hx).appended[n0 + i], b[i], old(self), frame)
+        }), //# handler.process_frame.buffered_appends_in_call_order
+        r is Ok && emits_return(eval_value(old(hx).evals, *frame), old(self).id) ==> ({
+            let out = final(hx).appended[(old(hx).appended.len() + eval_buffered(old(hx).evals, *frame).len()) as int];
+            &&& out.topic@ == old(self).topic@ + ret_suffix(old(self))
+            &&& out.ttl == ret_ttl(old(self))
+            &&& out.hash == Some(content_hash(json_text(value_json(eval_value(old(hx).evals, *frame)))))
+            &&& out.context_id == old(self).context_id
+        }), //# handler.process_frame.return_value_frame
 //@@ prologue
-    broadcast use axiom_display_id, axiom_display_str;
+    broadcast use axiom_display_id, axiom_display_str, axiom_display_json;
     proof { axiom_fmt_req2(); }
 //@@ before_stmt?: for mut output_frame in
     proof {
@@ -340,6 +414,11 @@ impl Handler {
 }
 // the frames one invocation emits: what the script buffered (any frames whose meta is absent or an object), then at most one
 // return-value frame, which is in the handler's context, has a hash and no meta
+pub open spec fn emits_return(v: Value, id: Scru128Id) -> bool { !is_own_append_value(v, id) && !(v is Nothing) }
+spec fn ret_suffix(h: &Handler) -> Seq<char> {
+    match h.config.return_options { Some(ro) => (match ro.suffix { Some(x) => x@, None => ".out"@ }), None => ".out"@ }
+}
+spec fn ret_ttl(h: &Handler) -> Option<TTL> { match h.config.return_options { Some(ro) => ro.ttl, None => None } }
 spec fn pf_outputs(outs: Seq<Frame>, h: &Handler, trigger: &Frame) -> bool {
     &&& forall|i: int| 0 <= i < outs.len() ==> (#[trigger] outs[i]).meta is None || serde_json::is_object(outs[i].meta.unwrap())
 }
@@ -371,9 +450,11 @@ impl Handler {
     #[verifier::external_body]
     fn process_frame(&mut self, Tracked(hx): Tracked<&mut Hx>, frame: &Frame, store: &Store) -> (r: Result<(), ProcessError>)
         requires !own_output(*frame, old(self).id),
-        ensures final(self).id == old(self).id, final(self).context_id == old(self).context_id,
+        ensures final(self).id == old(self).id, final(self).context_id == old(self).context_id, final(self).topic == old(self).topic,
             final(hx).processed == old(hx).processed.push(*frame), final(hx).incoming == old(hx).incoming,
             old(hx).appended.len() <= final(hx).appended.len(),
+            final(hx).proc_out == old(hx).proc_out + (final(hx).appended.len() - old(hx).appended.len()),
+            final(hx).failures == old(hx).failures + (if r is Err { 1nat } else { 0nat }),
     { unimplemented!() }
 
 // ================= dispatch loop of serve (C14) =================
@@ -381,27 +462,59 @@ impl Handler {
 //@@ from: while let Some(frame) = recver.recv()
 //@@ through_block
 //@@ strip: await
-//@@ elide_arg: serde_json::json!( ==>
-//@@ rewrite: serde_json::json!( ==> json_stub(
+//@@ json_desugar
+//@@ format_desugar
 //@@ closure_spec: .and_then( @0 ==> -> (o: Option<&serde_json::Value>) ensures o == (if serde_json::is_object(*$1) && serde_json::obj(*$1).contains_key("handler_id"@) { Some(&serde_json::obj(*$1)["handler_id"@]) } else { None })
 //@@ closure_spec: .and_then( @1 ==> -> (o: Option<&str>) ensures match o { Some(s) => serde_json::strv(*$1) == Some(s@), None => serde_json::strv(*$1) is None }
 //@@ closure_spec: .filter( ==> -> (b: bool) ensures b == ((*$1)@ == id_str(id_u128(self.id)))
 //@@ loop_spec: while let Some(frame) = recver.recv()
+    invariant_except_break
+        // no frame consumed so far unregistered the handler: it is still active
+        forall|i: int| 0 <= i < consumed(old(hx).incoming, hx.incoming).len() ==> !stops(#[trigger] old(hx).incoming[i], self.topic@, self.id), //# handler.serve.stops_when_unregistered
+        // ... and it has neither failed nor announced anything itself
+        direct_appends(old(hx), hx) == 0 && hx.failures == old(hx).failures, //# handler.serve.one_unregistered_per_stop
     invariant
-        self.id == old(self).id, self.context_id == old(self).context_id,
-        // the frames handed to process_frame so far are a subsequence, in order, of the frames received, none of them own output
-        forall|i: int| 0 <= i < hx.processed.len() - old(hx).processed.len() ==> !own_output(#[trigger] hx.processed[old(hx).processed.len() + i], self.id), //# handler.serve.never_own_output
+        hx.appended.len() - old(hx).appended.len() >= hx.proc_out - old(hx).proc_out >= 0, hx.failures >= old(hx).failures,
+        self.id == old(self).id, self.context_id == old(self).context_id, self.topic == old(self).topic,
+        hx.incoming.len() <= old(hx).incoming.len(),
+        hx.incoming =~= old(hx).incoming.subrange(old(hx).incoming.len() - hx.incoming.len(), old(hx).incoming.len() as int),
+        // the frames handed to process_frame so far: exactly the wanted ones among the frames consumed, in order, each once
         old(hx).processed.len() <= hx.processed.len(),
+        hx.processed =~= old(hx).processed + wanted_of(consumed(old(hx).incoming, hx.incoming), self.topic@, self.id), //# handler.serve.exactly_the_wanted_frames_in_order
+        forall|i: int| 0 <= i < hx.processed.len() - old(hx).processed.len() ==> !own_output(#[trigger] hx.processed[old(hx).processed.len() + i], self.id), //# handler.serve.never_own_output
+    ensures
+        forall|i: int| 0 <= i < consumed(old(hx).incoming, hx.incoming).len() - 1 ==> !stops(#[trigger] old(hx).incoming[i], self.topic@, self.id), //# handler.serve.stops_when_unregistered
+        stop_announced(old(hx), hx, self.topic@, self.context_id, self.id), //# handler.serve.one_unregistered_per_stop
     decreases hx.incoming.len(),
 //@@ loop_top: while let Some(frame) = recver.recv()
-    broadcast use axiom_display_id;
-    proof { axiom_fmt_req(); }
+    broadcast use axiom_display_id, axiom_display_str, serde_json::axiom_str_value;
+    proof {
+        axiom_fmt_req();
+        reveal_strlit("handler_id"); reveal_strlit("frame_id"); reveal_strlit("error");
+        assert("handler_id"@.len() == 10 && "frame_id"@.len() == 8 && "error"@.len() == 5);
+        let k = old(hx).incoming.len() - hx.incoming.len();
+        assert(frame == old(hx).incoming[k - 1]);
+        assert(consumed(old(hx).incoming, hx.incoming).drop_last() =~= old(hx).incoming.subrange(0, k - 1));
+        assert(consumed(old(hx).incoming, hx.incoming).last() == frame);
+    }
+    let ghost proc0 = hx.processed;
 //@@ header
-#[verifier::loop_isolation(false)]
 fn serve_loop(&mut self, store: &Store, recver: &mut FrameReceiver, Tracked(hx): Tracked<&mut Hx>)
     ensures
+        final(hx).incoming.len() <= old(hx).incoming.len(),
+        // invoked exactly once, in order, for every frame of the subscription that is neither registration traffic of its own
+        // name nor its own output ...
+        final(hx).processed.len() >= old(hx).processed.len(),
+        final(hx).processed =~= old(hx).processed + wanted_of(consumed(old(hx).incoming, final(hx).incoming), old(self).topic@, old(self).id), //# handler.serve.exactly_the_wanted_frames_in_order
         forall|i: int| 0 <= i < final(hx).processed.len() - old(hx).processed.len() ==> !own_output(#[trigger] final(hx).processed[old(hx).processed.len() + i], old(self).id), //# handler.serve.never_own_output
+        // ... until it is unregistered: nothing is consumed after a frame that unregisters (or replaces) it, whoever wrote that frame
+        forall|i: int| 0 <= i < consumed(old(hx).incoming, final(hx).incoming).len() - 1 ==> !stops(#[trigger] old(hx).incoming[i], old(self).topic@, old(self).id), //# handler.serve.stops_when_unregistered
+        // each stop - a frame that unregisters or replaces it, or a failed invocation - is announced by exactly one
+        // <name>.unregistered frame in its own context carrying its handler id, the id of the frame that stopped it and, for a
+        // failure, the error; it is the last thing the instance does. Without a stop it announces nothing.
+        stop_announced(old(hx), final(hx), old(self).topic@, old(self).context_id, old(self).id), //# handler.serve.one_unregistered_per_stop
 {
+    proof { assert(consumed(hx.incoming, hx.incoming) =~= Seq::<Frame>::empty()); }
 //@@ epilogue
 }
 //@@ end
@@ -445,6 +558,328 @@ fn stamp_loop(&self, frame: &Frame, store: &Store, output_to_process: Vec<Frame>
 //@@ end
 }
 
+// ================= generators::spawn (C17): a duplex generator that is (re)started reads its input from just after the
+// <name>.start frame THIS spawn appended - so the <name>.send frames of before the restart are not fed to it again
+//@@ item file=src/generators/serve.rs struct=GeneratorMeta
+//@@ end
+//@@ item file=src/generators/serve.rs struct=GeneratorTask
+//@@ end
+//@@ slice file=src/generators/serve.rs fn=spawn name=spawn_duplex_options
+//@@ from: let options = ReadOptions::builder()
+//@@ from_nth: 0
+//@@ through_stmt:
+//@@ header
+fn spawn_duplex_options(start: Frame, task: GeneratorTask) -> (r: ReadOptions)
+    ensures
+        r.last_id == Some(start.id) && !r.tail, //# generator.spawn.input_only_after_own_start
+        r.follow is On && r.limit is None, //# generator.spawn.input_follows_forever
+{
+//@@ epilogue
+    options
+}
+//@@ end
+
+// ================= handlers::serve::start_handler, whole function (C16) =================
+// a registration that cannot be turned into a handler (invalid script / configuration) is announced by exactly one
+// <name>.unregistered frame carrying the registering frame's id and the error; a valid one is spawned exactly once
+pub mod nu { pub struct Engine { pub state: super::EngineState }
+    impl Clone for Engine { #[verifier::external_body] fn clone(&self) -> (r: Engine) { unimplemented!() } }
+    pub use super::value_to_json; }
+pub struct Sx { pub ghost spawned: Seq<Scru128Id> }
+// whether the registering frame's script and configuration are accepted: decided by the nu engine, an oracle here
+pub uninterp spec fn from_frame_ok(f: Frame) -> bool;
+impl Handler {
+    #[verifier::external_body]
+    fn from_frame(frame: &Frame, store: &Store, engine: nu::Engine) -> (r: Result<Handler, Error>)
+        ensures r is Ok == from_frame_ok(*frame), r matches Ok(h) ==> h.id == frame.id && h.context_id == frame.context_id,
+    { unimplemented!() }
+    // Handler::spawn: starts the dispatch loop (unit above) on its own task and announces <name>.registered
+    #[verifier::external_body]
+    fn spawn(&self, Tracked(sx): Tracked<&mut Sx>, store: Store) -> (r: Result<(), Error>)
+        ensures final(sx).spawned == old(sx).spawned.push(self.id),
+    { unimplemented!() }
+}
+impl Clone for Store { #[verifier::external_body] fn clone(&self) -> (r: Store) { unimplemented!() } }
+impl std::fmt::Display for Error { #[verifier::external_body] fn fmt(&self, f: &mut std::fmt::Formatter) -> std::fmt::Result { unimplemented!() } }
+pub proof fn axiom_fmt_req3() ensures vstd::std_specs::fmt::fmt_req_all::<Error>() { admit(); }
+//@@ item file=src/handlers/serve.rs fn=start_handler ret=r
+//@@ strip: async await
+//@@ json_desugar
+//@@ format_desugar
+//@@ rewrite: Result<(), Box<dyn std::error::Error + Send + Sync>> ==> ! Result<(), Error>
+//@@ after_all: fn start_handler( ==> Tracked(hx): Tracked<&mut Hx>, Tracked(sx): Tracked<&mut Sx>,
+//@@ after_all: handler.spawn( ==> Tracked(sx),
+//@@ spec
+    ensures
+        from_frame_ok(*frame) ==> final(hx).appended == old(hx).appended && final(sx).spawned == old(sx).spawned.push(frame.id), //# handlers.start.valid_registration_spawned_once
+        !from_frame_ok(*frame) ==> r is Ok && final(sx).spawned == old(sx).spawned
+            && final(hx).appended.len() == old(hx).appended.len() + 1 && final(hx).appended.drop_last() == old(hx).appended
+            && rejected_announcement(final(hx).appended.last(), topic@, *frame), //# handlers.start.invalid_registration_announced_once
+//@@ prologue
+    broadcast use axiom_display_id, serde_json::axiom_str_value;
+    proof {
+        axiom_fmt_req(); axiom_fmt_req3();
+        reveal_strlit("handler_id"); reveal_strlit("error");
+        assert("handler_id"@.len() == 10 && "error"@.len() == 5);
+    }
+//@@ end
+spec fn rejected_announcement(f: Frame, name: Seq<char>, reg: Frame) -> bool {
+    &&& f.topic@ == name + ".unregistered"@ && f.context_id == reg.context_id
+    &&& f.meta matches Some(m) && serde_json::is_object(m)
+        && serde_json::obj(m).contains_key("handler_id"@) && serde_json::strv(serde_json::obj(m)["handler_id"@]) == Some(id_str(id_u128(reg.id)))
+        && serde_json::obj(m).contains_key("error"@)
+}
+
+// ================= commands (C19) =================
+// text suffix tests (ASSUMED of std): strip_suffix is a suffix test on the text
+pub uninterp spec fn pat_chars<P>(p: P) -> Seq<char>;
+pub broadcast proof fn axiom_pat_str(p: &str) ensures #[trigger] pat_chars::<&str>(p) == p@ { admit(); }
+pub open spec fn has_suffix(s: Seq<char>, p: Seq<char>) -> bool { p.len() <= s.len() && s.subrange(s.len() - p.len(), s.len() as int) == p }
+pub open spec fn strip(s: Seq<char>, p: Seq<char>) -> Seq<char> { s.subrange(0, s.len() - p.len()) }
+pub assume_specification<P: core::str::pattern::Pattern> [str::strip_suffix::<P>] (s: &str, p: P) -> (r: Option<&str>)
+    where for<'b> P::Searcher<'b>: core::str::pattern::ReverseSearcher<'b>
+    ensures match r { Some(t) => has_suffix(s@, pat_chars::<P>(p)) && t@ == strip(s@, pat_chars::<P>(p)), None => !has_suffix(s@, pat_chars::<P>(p)) };
+//@@ item file=src/commands/serve.rs struct=Command
+//@@ rewrite: nu::Engine ==> ! nu::Engine
+//@@ end
+impl Clone for ReturnOptions { #[verifier::external_body] fn clone(&self) -> (r: ReturnOptions) ensures r == *self { unimplemented!() } }
+#[verifier::external_body] pub struct CommandTable { _p: () }
+pub uninterp spec fn ctable(t: &CommandTable) -> Map<Seq<char>, Command>;
+impl CommandTable {
+    #[verifier::external_body]
+    fn insert(&mut self, name: String, c: Command) -> (r: Option<Command>) ensures ctable(final(self)) == ctable(old(self)).insert(name@, c) { unimplemented!() }
+}
+// register_command: reads the definition from CAS and parses it with the nu engine: an oracle here; the command it builds
+// carries the id of the defining frame
+pub uninterp spec fn define_ok(f: Frame) -> bool;
+#[verifier::external_body]
+fn register_command(frame: &Frame, base_engine: &nu::Engine, store: &Store) -> (r: Result<Command, Error>)
+    ensures r is Ok == define_ok(*frame), r matches Ok(c) ==> c.id == frame.id,
+{ unimplemented!() }
+spec fn define_error_frame(f: Frame, name: Seq<char>, def: Frame) -> bool {
+    &&& f.topic@ == name + ".error"@ && f.context_id == def.context_id
+    &&& f.meta matches Some(m) && serde_json::is_object(m)
+        && serde_json::obj(m).contains_key("command_id"@) && serde_json::strv(serde_json::obj(m)["command_id"@]) == Some(id_str(id_u128(def.id)))
+        && serde_json::obj(m).contains_key("error"@)
+}
+// ---- handle_define, whole function: the latest valid definition wins, an invalid one is reported by exactly one <name>.error
+//@@ item file=src/commands/serve.rs fn=handle_define
+//@@ strip: async await
+//@@ json_desugar
+//@@ format_desugar
+//@@ rewrite: commands: &mut HashMap<String, Command> ==> ! commands: &mut CommandTable
+//@@ after_all: fn handle_define( ==> Tracked(hx): Tracked<&mut Hx>,
+//@@ spec
+    ensures
+        define_ok(*frame) ==> final(hx).appended == old(hx).appended && ctable(final(commands)).dom() == ctable(old(commands)).dom().insert(name@)
+            && ctable(final(commands))[name@].id == frame.id
+            && (forall|k: Seq<char>| k != name@ && ctable(old(commands)).contains_key(k) ==> ctable(final(commands))[k] == ctable(old(commands))[k]), //# command.define.valid_definition_replaces_the_name
+        !define_ok(*frame) ==> ctable(final(commands)) == ctable(old(commands))
+            && final(hx).appended.len() == old(hx).appended.len() + 1 && final(hx).appended.drop_last() == old(hx).appended
+            && define_error_frame(final(hx).appended.last(), name@, *frame), //# command.define.invalid_definition_reported_once
+//@@ prologue
+    broadcast use axiom_display_id, axiom_display_str, serde_json::axiom_str_value;
+    proof {
+        axiom_fmt_req(); axiom_fmt_req3();
+        reveal_strlit("command_id"); reveal_strlit("error");
+        assert("command_id"@.len() == 10 && "error"@.len() == 5);
+    }
+//@@ end
+
+// ---- the result half of execute_command (the body of its spawn_blocking closure from `match run_command(..)` on): one
+// <name><suffix> frame per value of the closure's output, in order, then exactly one <name>.complete - or exactly one <name>.error
+pub struct CommonOptions { pub run: nu_protocol::engine::Closure }
+#[verifier::external_body] pub struct PipelineData { _p: () }
+#[verifier::external_body] pub struct PipeIter { _p: () }
+pub uninterp spec fn pipe_values(p: &PipelineData) -> Seq<Value>;
+pub uninterp spec fn pipe_rest(i: &PipeIter) -> Seq<Value>;
+pub uninterp spec fn pipe_all(i: &PipeIter) -> Seq<Value>;
+impl PipelineData {
+    #[verifier::external_body]
+    pub fn into_iter(self) -> (i: PipeIter) ensures pipe_rest(&i) == pipe_values(&self), pipe_all(&i) == pipe_values(&self) { unimplemented!() }
+}
+impl PipeIter {
+    #[verifier::external_body]
+    pub fn next(&mut self) -> (r: Option<Value>)
+        ensures pipe_all(final(self)) == pipe_all(old(self)),
+            match r { Some(v) => pipe_rest(old(self)).len() > 0 && v == pipe_rest(old(self))[0] && pipe_rest(final(self)) == pipe_rest(old(self)).drop_first(),
+                      None => pipe_rest(old(self)).len() == 0 && pipe_rest(final(self)) == pipe_rest(old(self)) },
+    { unimplemented!() }
+}
+// run_command: evaluates the command's closure on the call frame (nu engine): an oracle for what it produced
+pub uninterp spec fn call_values(call: Frame) -> Option<Seq<Value>>;
+#[verifier::external_body]
+fn run_command(engine: &nu::Engine, closure: nu_protocol::engine::Closure, frame: &Frame) -> (r: Result<PipelineData, Box<ShellError>>)
+    ensures match r { Ok(p) => call_values(*frame) == Some(pipe_values(&p)), Err(_) => call_values(*frame) is None },
+{ unimplemented!() }
+impl Store {
+    #[verifier::external_body]
+    pub fn cas_insert_sync(&self, content: String) -> (r: Result<Integrity, CasError>) ensures r is Ok ==> r.unwrap() == content_hash(content@) { unimplemented!() }
+}
+spec fn stamped_by_command(f: Frame, topic: Seq<char>, call: Frame, cid: Scru128Id) -> bool {
+    &&& f.topic@ == topic && f.context_id == call.context_id
+    &&& f.meta matches Some(m) && serde_json::is_object(m)
+        && serde_json::obj(m).contains_key("command_id"@) && serde_json::strv(serde_json::obj(m)["command_id"@]) == Some(id_str(id_u128(cid)))
+        && serde_json::obj(m).contains_key("frame_id"@) && serde_json::strv(serde_json::obj(m)["frame_id"@]) == Some(id_str(id_u128(call.id)))
+}
+spec fn cmd_suffix(c: &Command) -> Seq<char> { match c.return_options { Some(ro) => (match ro.suffix { Some(x) => x@, None => ".recv"@ }), None => ".recv"@ } }
+spec fn cmd_ttl(c: &Command) -> Option<TTL> { match c.return_options { Some(ro) => ro.ttl, None => None } }
+spec fn recv_frame(f: Frame, v: Value, call: Frame, c: &Command) -> bool {
+    &&& stamped_by_command(f, strip(call.topic@, ".call"@) + cmd_suffix(c), call, c.id)
+    &&& f.ttl == cmd_ttl(c) && f.hash == Some(content_hash(json_text(value_json(v))))
+}
+//@@ slice file=src/commands/serve.rs fn=execute_command name=command_results
+//@@ from: match run_command(&engine, common_options.run, &frame) {
+//@@ through_close
+//@@ json_desugar
+//@@ format_desugar
+//@@ for_desugar: for value in
+//@@ rewrite: opts.suffix.as_deref() ==> opt_string_as_str(&opts.suffix)
+//@@ rewrite: Ok(()) as Result<(), Box<dyn std::error::Error + Send + Sync>> ==> ! Ok::<(), Error>(())
+//@@ closure_spec: .and_then( @0 ==> -> (o: Option<&str>) ensures match o { Some(x) => $1.suffix is Some && x@ == $1.suffix.unwrap()@, None => $1.suffix is None }
+//@@ closure_spec: .and_then( @1 ==> -> (o: Option<TTL>) ensures o == $1.ttl
+//@@ loop_spec: for value in
+    invariant
+        vals == pipe_all(&vx_it), 0 <= k <= vals.len(), pipe_rest(&vx_it) =~= vals.subrange(k, vals.len() as int), call_values(frame) == Some(vals),
+        has_suffix(frame.topic@, ".call"@), recv_suffix@ == cmd_suffix(&command), ttl == cmd_ttl(&command),
+        hx.appended.len() == old(hx).appended.len() + k,
+        forall|i: int| 0 <= i < old(hx).appended.len() ==> #[trigger] hx.appended[i] == old(hx).appended[i],
+        forall|i: int| 0 <= i < k ==> recv_frame(#[trigger] hx.appended[old(hx).appended.len() + i], vals[i], frame, &command), //# command.call.one_result_frame_per_value_in_order
+    ensures k == vals.len(),
+    decreases pipe_rest(&vx_it).len(),
+//@@ loop_top: for value in
+    broadcast use axiom_display_id, axiom_display_str, axiom_display_json, serde_json::axiom_str_value, axiom_pat_str;
+    proof {
+        axiom_fmt_req(); axiom_fmt_req2();
+        reveal_strlit("command_id"); reveal_strlit("frame_id");
+        assert("command_id"@.len() == 10 && "frame_id"@.len() == 8);
+        assert(value == vals[k]);
+        assert(vals.subrange(k, vals.len() as int).drop_first() =~= vals.subrange(k + 1, vals.len() as int));
+        k = k + 1;
+    }
+//@@ before_loop: for value in
+    let ghost vals = pipe_values(&pipeline_data);
+    let ghost mut k: int = 0;
+//@@ header
+fn command_results(engine: nu::Engine, common_options: CommonOptions, command: Command, frame: Frame, store: Store, Tracked(hx): Tracked<&mut Hx>) -> (r: Result<(), Error>)
+    requires has_suffix(frame.topic@, ".call"@),
+    ensures
+        forall|i: int| 0 <= i < old(hx).appended.len() && i < final(hx).appended.len() ==> #[trigger] final(hx).appended[i] == old(hx).appended[i],
+        // the closure produced values: one stamped result frame per value, in order, with the configured suffix and TTL and the
+        // value's JSON text in CAS, then exactly one <name>.complete
+        r is Ok && call_values(frame) is Some ==> ({
+            let vals = call_values(frame).unwrap(); let n0 = old(hx).appended.len() as int;
+            &&& final(hx).appended.len() == n0 + vals.len() + 1
+            &&& forall|i: int| 0 <= i < vals.len() ==> recv_frame(#[trigger] final(hx).appended[n0 + i], vals[i], frame, &command)
+            &&& stamped_by_command(final(hx).appended[n0 + vals.len() as int], strip(frame.topic@, ".call"@) + ".complete"@, frame, command.id)
+        }), //# command.call.one_result_frame_per_value_in_order
+        // the closure failed: exactly one <name>.error, stamped, carrying the error
+        call_values(frame) is None ==> r is Ok && final(hx).appended.len() == old(hx).appended.len() + 1
+            && stamped_by_command(final(hx).appended.last(), strip(frame.topic@, ".call"@) + ".error"@, frame, command.id)
+            && serde_json::obj(final(hx).appended.last().meta.unwrap()).contains_key("error"@), //# command.call.failure_reported_by_one_error_frame
+        // storing a result failed half way: results so far stay, no terminal frame from here (the caller reports it)
+        r is Err ==> call_values(frame) is Some && final(hx).appended.len() <= old(hx).appended.len() + call_values(frame).unwrap().len(), //# command.call.no_terminal_frame_when_cas_fails
+{
+    broadcast use axiom_display_id, axiom_display_str, axiom_display_json, serde_json::axiom_str_value, axiom_pat_str;
+    proof {
+        axiom_fmt_req(); axiom_fmt_req2();
+        reveal_strlit("command_id"); reveal_strlit("frame_id"); reveal_strlit("error");
+        assert("command_id"@.len() == 10 && "frame_id"@.len() == 8 && "error"@.len() == 5);
+    }
+//@@ epilogue
+}
+//@@ end
+
+// ================= generators::serve::append, whole function (C18) =================
+// every frame a generator emits: <name>.<suffix> in the spawn's context, source_id = the spawn's id, the content (if any) in CAS
+spec fn generator_frame(f: Frame, task: &GeneratorTask, suffix: Seq<char>, content: Option<String>) -> bool {
+    &&& f.topic@ == task.topic@ + "."@ + suffix && f.context_id == task.context_id
+    &&& f.hash == (match content { Some(c) => Some(content_hash(c@)), None => None })
+    &&& f.meta matches Some(m) && serde_json::is_object(m) && serde_json::obj(m).contains_key("source_id"@)
+        && serde_json::strv(serde_json::obj(m)["source_id"@]) == Some(id_str(id_u128(task.id)))
+}
+//@@ item file=src/generators/serve.rs fn=append ret=r as=generator_append
+//@@ strip: async await
+//@@ json_desugar
+//@@ format_desugar
+//@@ rewrite: Result<Frame, Box<dyn std::error::Error + Send + Sync>> ==> ! Result<Frame, Error>
+//@@ after_all: fn append( ==> Tracked(hx): Tracked<&mut Hx>,
+//@@ spec
+    ensures
+        // exactly one frame is handed to the store, and it is the generator's: name.suffix, spawn's context, source_id, content hash
+        final(hx).appended == old(hx).appended
+            || (final(hx).appended.len() == old(hx).appended.len() + 1 && final(hx).appended.drop_last() == old(hx).appended
+                && generator_frame(final(hx).appended.last(), task, suffix@, content)), //# generator.append.one_stamped_frame
+        r matches Ok(fr) ==> final(hx).appended.len() == old(hx).appended.len() + 1 && generator_frame(fr, task, suffix@, content), //# generator.append.returns_the_stored_frame
+//@@ prologue
+    broadcast use axiom_display_id, serde_json::axiom_str_value;
+    proof { axiom_fmt_req(); }
+//@@ end
+
+// ================= generators::serve::try_start_task, whole function (C18) =================
+// a spawn that cannot be honoured yields exactly one <name>.spawn.error naming it; one that can yields none
+pub struct Tx { pub ghost attempts: Seq<Scru128Id>, pub ghost last_ok: bool }
+#[verifier::external_body] pub struct GeneratorMap { _p: () }
+// handle_spawn_event as try_start_task sees it (its own contract: unit restart_ops)
+#[verifier::external_body]
+fn handle_spawn_event(Tracked(tx): Tracked<&mut Tx>, topic: &str, frame: Frame, generators: &mut GeneratorMap, engine: nu::Engine, store: Store) -> (r: Result<(), Error>)
+    ensures final(tx).attempts == old(tx).attempts.push(frame.id), final(tx).last_ok == (r is Ok),
+{ unimplemented!() }
+spec fn spawn_error_frame(f: Frame, name: Seq<char>, spawn: Frame) -> bool {
+    &&& f.topic@ == name + ".spawn.error"@ && f.context_id == spawn.context_id
+    &&& f.meta matches Some(m) && serde_json::is_object(m)
+        && serde_json::obj(m).contains_key("source_id"@) && serde_json::strv(serde_json::obj(m)["source_id"@]) == Some(id_str(id_u128(spawn.id)))
+        && serde_json::obj(m).contains_key("reason"@)
+}
+//@@ item file=src/generators/serve.rs fn=try_start_task
+//@@ strip: async await
+//@@ json_desugar
+//@@ format_desugar
+//@@ rewrite: generators: &mut HashMap<String, GeneratorTask> ==> ! generators: &mut GeneratorMap
+//@@ after_all: fn try_start_task( ==> Tracked(hx): Tracked<&mut Hx>, Tracked(tx): Tracked<&mut Tx>,
+//@@ after_all: = handle_spawn_event( ==> Tracked(tx),
+//@@ spec
+    ensures
+        final(tx).attempts == old(tx).attempts.push(frame.id), //# generator.try_start.one_attempt
+        final(tx).last_ok ==> final(hx).appended == old(hx).appended, //# generator.try_start.no_error_frame_when_started
+        !final(tx).last_ok ==> final(hx).appended.len() == old(hx).appended.len() + 1 && final(hx).appended.drop_last() == old(hx).appended
+            && spawn_error_frame(final(hx).appended.last(), topic@, *frame), //# generator.try_start.one_spawn_error_naming_it
+//@@ prologue
+    broadcast use axiom_display_id, serde_json::axiom_str_value;
+    proof {
+        axiom_fmt_req(); axiom_fmt_req3();
+        reveal_strlit("source_id"); reveal_strlit("reason");
+        assert("source_id"@.len() == 9 && "reason"@.len() == 6);
+    }
+//@@ end
+
+// registration traffic of the handler's own name (the specs take the name and the id, the only parts of the handler they depend on)
+spec fn reg_topic(f: Frame, name: Seq<char>) -> bool { f.topic@ == name + ".register"@ || f.topic@ == name + ".unregister"@ }
+// ... that unregisters (or replaces) this instance: anything of that kind that is newer than the registration it was started from
+spec fn stops(f: Frame, name: Seq<char>, hid: Scru128Id) -> bool { reg_topic(f, name) && !(id_u128(f.id) <= id_u128(hid)) }
+// a frame the handler must be invoked for: everything except registration traffic of its own name and its own output
+spec fn wanted(f: Frame, name: Seq<char>, hid: Scru128Id) -> bool { !reg_topic(f, name) && !own_output(f, hid) }
+spec fn wanted_of(s: Seq<Frame>, name: Seq<char>, hid: Scru128Id) -> Seq<Frame> decreases s.len() {
+    if s.len() == 0 { Seq::empty() } else if wanted(s.last(), name, hid) { wanted_of(s.drop_last(), name, hid).push(s.last()) } else { wanted_of(s.drop_last(), name, hid) }
+}
+// frames appended by the dispatch loop itself (not inside a process_frame call)
+spec fn direct_appends(h0: &Hx, h1: &Hx) -> int { (h1.appended.len() - h0.appended.len()) - (h1.proc_out - h0.proc_out) }
+spec fn announcement(f: Frame, name: Seq<char>, ctx: Scru128Id, hid: Scru128Id, trigger: Frame, with_error: bool) -> bool {
+    &&& f.topic@ == name + ".unregistered"@ && f.context_id == ctx
+    &&& f.meta matches Some(m) && serde_json::is_object(m)
+        && serde_json::obj(m).contains_key("handler_id"@) && serde_json::strv(serde_json::obj(m)["handler_id"@]) == Some(id_str(id_u128(hid)))
+        && serde_json::obj(m).contains_key("frame_id"@) && serde_json::strv(serde_json::obj(m)["frame_id"@]) == Some(id_str(id_u128(trigger.id)))
+        && (with_error ==> serde_json::obj(m).contains_key("error"@))
+}
+spec fn stop_announced(h0: &Hx, h1: &Hx, name: Seq<char>, ctx: Scru128Id, hid: Scru128Id) -> bool {
+    let c = consumed(h0.incoming, h1.incoming);
+    let stopped = c.len() > 0 && stops(c.last(), name, hid);
+    let failed = h1.failures > h0.failures;
+    &&& 0 <= direct_appends(h0, h1) <= 1 && h1.failures - h0.failures <= 1
+    &&& (direct_appends(h0, h1) == 1) == (stopped || failed)
+    &&& direct_appends(h0, h1) == 1 ==> c.len() > 0 && h1.appended.len() > 0 && announcement(h1.appended.last(), name, ctx, hid, c.last(), failed)
+}
+spec fn consumed(old_in: Seq<Frame>, now_in: Seq<Frame>) -> Seq<Frame> { old_in.subrange(0, old_in.len() - now_in.len()) }
 spec fn stamped(out: Frame, inp: Frame, h: &Handler, trigger: &Frame) -> bool {
     &&& out.context_id == h.context_id
     &&& out.topic == inp.topic && out.hash == inp.hash && out.ttl == inp.ttl && out.id == inp.id
